@@ -162,15 +162,15 @@ values for the `in` parameters, variables for the out/inout parameters and refer
 needs, returns what the typed function returns when entered with the current values of those variables, and leaves the
 typed function's final store with the final parameter values written back to the variables in order.
 
-`_partial`: the three semantic assumptions `SemOK` about the typed functions that get a trampoline are hypotheses, not
-derived here — (1) the result does not depend on the entry value of an `out` parameter (a source program that reads an
-`out` parameter before writing it has no defined meaning; no definite-assignment analysis is formalised); (2) a `void`
-function returns no value; (3) the typed function does not touch the trampoline's scratch slot `out` (true when that slot
-is not a variable of the program; the frame lemma for `Ir.exec` that would derive it from a syntactic condition is
-not proved). -/
-theorem gen_sem_program_partial {cx : Ctx} {L : Msl.Layout} {prog : List Ir.Func} {mprog : List MslAst.Func}
+Hypotheses: `ProgOK` (the exporter produced the module; per function the side conditions of the statement theorems,
+names and layout), `SynOK` (syntactic: no function mentions a trampoline's scratch slot `out`; a `void` function that
+gets a trampoline has no `return e;`) and `OutOK`: the typed functions that get a trampoline do not depend on the value
+an `out` parameter has on entry — a *semantic* precondition on the source program (a program that reads an `out`
+parameter before writing it has no defined meaning in the source language; `T __p;` is uninitialised in the emitted
+Metal), not derived from a syntactic definite-assignment analysis here. -/
+theorem gen_sem_program {cx : Ctx} {L : Msl.Layout} {prog : List Ir.Func} {mprog : List MslAst.Func}
     {rsv : Nat → List Var} {xo : Nat → Var} {vis0 : Nat → Var → Bool} {P : Prim} {fuel : Nat}
-    (hP : ProgOK cx L prog mprog rsv xo vis0) (hS : ∀ d, SemOK cx P prog fuel xo d) (d : Nat)
+    (hP : ProgOK cx L prog mprog rsv xo vis0) (hsyn : SynOK cx prog xo) (hout : OutOK cx P prog fuel) (d : Nat)
     (f : Nat) (rt : Ty) (ps : List (Dir × Ty)) (gs : List Nat) (l : List (Val × Option Var)) (σ : Store)
     (hsig : Ir.sigOf prog f = some (rt, ps)) (hreq : cx.req f = some gs) (hcalled : cx.called f = true)
     (hfit : fitsB cx.vty ps l = true) (hrsv : ∀ p ∈ l, ∀ x, p.2 = some x → (rsv f).contains x = false) :
@@ -178,7 +178,13 @@ theorem gen_sem_program_partial {cx : Ctx} {L : Msl.Layout} {prog : List Ir.Func
       match Ir.phi P prog fuel d f (l.map (valAt σ)) σ with
       | none => none
       | some (ret, finals, σ2) => some (ret, writeBack (l.map (·.2)) finals σ2) :=
-  (worlds_prog hP hS d).call f rt ps gs l σ hsig hreq hcalled hfit hrsv
+  (worlds_prog hP (semOK_of hout hsyn) d).call f rt ps gs l σ hsig hreq hcalled hfit hrsv
+
+/-- the typed semantics changes only variables the program mentions (used to discharge "the scratch slot is untouched") -/
+theorem ir_frame (P : Prim) (prog : List Ir.Func) (fuel : Nat) (x : Var) (hfree : ∀ fn ∈ prog, Lemmas.GenMsl.Ir.freeF x fn = true)
+    (d f : Nat) (vals : List Val) (σ : Store) (r : Val × List Val × Store) (h : Ir.phi P prog fuel d f vals σ = some r) :
+    r.2.2 x = σ x :=
+  phi_frame P prog fuel x hfree d f vals σ r h
 
 /-- …and the signatures a C++ front end reads off the emitted definitions are the typed ones followed by references to
 the statics -/
